@@ -324,7 +324,12 @@ pub fn main(args: &[String]) {
         let par = Par::from_json(&scen["par"]);
         let labels = scen["labels"].as_array().unwrap();
         let flush_all = getb(scen, "flush_all");
-        let b = match build_archive_opt(&par, labels, SharedSink::new(), flush_all) {
+        // C14 x C13: the destination may accept only part of each write (schedule of accepted sizes, 0 = Interrupted)
+        let sink = match scen.get("sched").and_then(Value::as_array) {
+            Some(a) if !a.is_empty() => SharedSink::with_schedule(a.iter().map(|x| x.as_i64().unwrap()).collect()),
+            _ => SharedSink::new(),
+        };
+        let b = match build_archive_opt(&par, labels, sink, flush_all) {
             Ok(b) => b,
             Err(e) => {
                 tw.push(&json!({"ev": "builderror", "scen": k, "detail": e}));
